@@ -423,6 +423,14 @@ class Buildable(Generic[T], metaclass=abc.ABCMeta):
     for index, value in enumerate(all_positional_args):
       if value is NO_VALUE and index < len(params):
         param = params[index]
+        # Only the fixed prefix has defaults to show; an index inside `*args`
+        # must not be matched with the keyword-only parameter that happens to
+        # follow `*args` at the same position of the signature.
+        if param.kind not in (
+            param.POSITIONAL_ONLY,
+            param.POSITIONAL_OR_KEYWORD,
+        ):
+          break
         if param.default is not param.empty:
           all_positional_args[index] = param.default
     return all_positional_args[key]
